@@ -130,15 +130,11 @@ pub fn path_valid<const M: usize, const N: usize>(p: &Params, x: &[u8; M], y: &[
     let mut score = clips.unwrap();
     let (mut i, mut j) = (al.xstart, al.ystart);
     let mut prev: u8 = 0;
-    // phases: 0 = prefix clips, 1 = aligned ops, 2 = suffix clips
-    let mut phase = 0;
     let (mut xpre, mut xsuf, mut ypre, mut ysuf) = (0usize, 0usize, 0usize, 0usize);
     let mut k = 0;
     while k < al.operations.len() {
         match al.operations[k] {
             AlignmentOperation::Match | AlignmentOperation::Subst => {
-                assert!(phase <= 1, "C01: aligned operation after a suffix clip");
-                phase = 1;
                 assert!(i < al.xend && j < al.yend, "C01: path leaves the reported sub-ranges");
                 let is_match = al.operations[k] == AlignmentOperation::Match;
                 assert!((x[i] == y[j]) == is_match, "C01: Match/Subst label contradicts the symbols");
@@ -148,16 +144,12 @@ pub fn path_valid<const M: usize, const N: usize>(p: &Params, x: &[u8; M], y: &[
                 prev = 0;
             }
             AlignmentOperation::Ins => {
-                assert!(phase <= 1, "C01: aligned operation after a suffix clip");
-                phase = 1;
                 assert!(i < al.xend, "C01: path leaves the reported x range");
                 score += if prev == 1 { p.gap_extend } else { p.gap_open + p.gap_extend };
                 i += 1;
                 prev = 1;
             }
             AlignmentOperation::Del => {
-                assert!(phase <= 1, "C01: aligned operation after a suffix clip");
-                phase = 1;
                 assert!(j < al.yend, "C01: path leaves the reported y range");
                 score += if prev == 2 { p.gap_extend } else { p.gap_open + p.gap_extend };
                 j += 1;
@@ -167,22 +159,22 @@ pub fn path_valid<const M: usize, const N: usize>(p: &Params, x: &[u8; M], y: &[
                 assert!(clips_kept, "C01: clip operation left in a filtered alignment");
                 if l == 0 {
                     // a zero-length clip consumes nothing and costs nothing under the documented model: tolerated anywhere
-                } else if phase == 0 && i == al.xstart && j == al.ystart && xpre == 0 && l == al.xstart && al.xstart > 0 {
+                } else if i == al.xstart && xpre == 0 && al.xstart > 0 && l == al.xstart && xsuf == 0 {
+                    // prefix clip of x: before any symbol of x is consumed (its position relative to y's operations is a
+                    // matter of representation, e.g. [Yclip(1), Ins] for "y clipped as suffix, x inserted")
                     xpre = l;
                 } else {
-                    phase = 2;
-                    assert!(i == al.xend && j == al.yend, "C01: clip in the middle of the path");
+                    assert!(i == al.xend, "C01: x clip in the middle of the aligned x range");
                     xsuf += l;
                 }
             }
             AlignmentOperation::Yclip(l) => {
                 assert!(clips_kept, "C01: clip operation left in a filtered alignment");
                 if l == 0 {
-                } else if phase == 0 && i == al.xstart && j == al.ystart && ypre == 0 && l == al.ystart && al.ystart > 0 {
+                } else if j == al.ystart && ypre == 0 && al.ystart > 0 && l == al.ystart && ysuf == 0 {
                     ypre = l;
                 } else {
-                    phase = 2;
-                    assert!(i == al.xend && j == al.yend, "C01: clip in the middle of the path");
+                    assert!(j == al.yend, "C01: y clip in the middle of the aligned y range");
                     ysuf += l;
                 }
             }
@@ -364,11 +356,48 @@ pub fn restore_fixed<const M: usize, const N: usize, const L: usize, const MASK:
 inst!(c01_fixed_1x1_k15_s0, 6, custom_fixed::<1, 1, 2, 15, 0>());
 inst!(c01_fixed_1x1_k1_s0, 6, custom_fixed::<1, 1, 2, 1, 0>());
 inst!(c01_fixed_1x2_k15_s1, 7, custom_fixed::<1, 2, 3, 15, 1>());
-inst!(c01_fixed_2x2_k15_s0, 8, custom_fixed::<2, 2, 4, 15, 0>());
-inst!(c01_fixed_2x2_k0_s1, 8, custom_fixed::<2, 2, 4, 0, 1>());
-inst!(c01_fixed_2x2_k5_s2, 8, custom_fixed::<2, 2, 4, 5, 2>());
-inst!(c01_fixed_2x2_k10_s1, 8, custom_fixed::<2, 2, 4, 10, 1>());
-inst!(c01_fixed_3x3_k15_s0, 10, custom_fixed::<3, 3, 6, 15, 0>());
+inst!(c01_fixed_2x2_k15_s0, 14, custom_fixed::<2, 2, 4, 15, 0>());
+inst!(c01_fixed_2x2_k0_s1, 14, custom_fixed::<2, 2, 4, 0, 1>());
+inst!(c01_fixed_2x2_k5_s2, 14, custom_fixed::<2, 2, 4, 5, 2>());
+inst!(c01_fixed_2x2_k10_s1, 14, custom_fixed::<2, 2, 4, 10, 1>());
+inst!(c01_fixed_3x3_k15_s0, 20, custom_fixed::<3, 3, 6, 15, 0>());
 inst!(c01_restore_1x2_k4_s0_semi, 7, restore_fixed::<1, 2, 3, 4, 0, 1>());
 inst!(c01_restore_1x2_k5_s0_local, 7, restore_fixed::<1, 2, 3, 5, 0, 2>());
 inst!(c01_restore_1x1_k15_s0_global, 6, restore_fixed::<1, 1, 2, 15, 0, 0>());
+
+/// (a) only: optimality by universal competitor (cheaper than the combined harness; reaches 2x2 and 3x3).
+#[cfg(kani)]
+pub fn custom_opt<const M: usize, const N: usize, const L: usize, const MASK: u8>() {
+    let p = any_params::<MASK, 4>();
+    let x: [u8; M] = kani::any();
+    let y: [u8; N] = kani::any();
+    let mut al = Aligner::with_capacity_and_scoring(M, N, scoring_of(p));
+    let a = al.custom(&x[..], &y[..]);
+    competitor_bound::<M, N, L>(&p, &x, &y, a.score);
+    kani::cover!(a.score > 0, "positive score");
+    core::mem::forget(al);
+    core::mem::forget(a);
+}
+/// (b) only: the reported path is valid and re-scores to the reported score.
+#[cfg(kani)]
+pub fn custom_path<const M: usize, const N: usize, const MASK: u8>() {
+    let p = any_params::<MASK, 4>();
+    let x: [u8; M] = kani::any();
+    let y: [u8; N] = kani::any();
+    let mut al = Aligner::with_capacity_and_scoring(M, N, scoring_of(p));
+    let a = al.custom(&x[..], &y[..]);
+    path_valid(&p, &x, &y, &a, true);
+    kani::cover!(a.operations.len() >= 2, "path of at least two operations");
+    core::mem::forget(al);
+    core::mem::forget(a);
+}
+inst!(c01_opt_2x2_k15, 14, custom_opt::<2, 2, 4, 15>());
+inst!(c01_opt_2x2_k0, 14, custom_opt::<2, 2, 4, 0>());
+inst!(c01_opt_2x2_k6, 14, custom_opt::<2, 2, 4, 6>());
+inst!(c01_opt_2x2_k9, 14, custom_opt::<2, 2, 4, 9>());
+inst!(c01_path_2x2_k15, 14, custom_path::<2, 2, 15>());
+inst!(c01_path_2x2_k0, 14, custom_path::<2, 2, 0>());
+inst!(c01_path_2x2_k6, 14, custom_path::<2, 2, 6>());
+inst!(c01_path_2x2_k9, 14, custom_path::<2, 2, 9>());
+inst!(c01_opt_3x3_k15, 20, custom_opt::<3, 3, 6, 15>());
+inst!(c01_path_3x3_k15, 20, custom_path::<3, 3, 15>());
